@@ -248,6 +248,14 @@ inline void Sweep::exprs_other()
       add_other("make_elementary_substitution", s, [s, pp = &p, vp = &v](Ck& c) { c.same("operator[](bound)", &(*static_cast<const Substitution*>(s))[*pp], vp); });
       auto* g = lex.make_general_substitution();
       add_other("make_general_substitution", g, [g, pp = &p](Ck& c) { c.same("operator[](unbound)", &(*static_cast<const Substitution*>(g))[*pp], static_cast<const Expr*>(pp)); });
+      // a general substitution is given its operands after construction, one binding at a time: it reports the value last given
+      // for each parameter (first-time bindings, a re-binding, a binding given through the returned substitution)
+      {  auto* g2 = lex.make_general_substitution(); auto& p2 = *rng.pick(P.params); auto& v1 = P.X(); auto& v2 = P.X(); auto& v3 = P.X();
+         g2->subst(p, v1); g2->subst(p2, v2).subst(p, v3);
+         const bool same_parm = &p2 == &p;
+         add_other("General_substitution::subst(rebinding)", g2, [g2, pp = &p, pq = &p2, a = &v1, b = &v2, cc = &v3, same_parm](Ck& c) {
+            (void)a; c.same("operator[](rebound: latest value)", &(*static_cast<const Substitution*>(g2))[*pp], cc);
+            if (!same_parm) c.same("operator[](bound once)", &(*static_cast<const Substitution*>(g2))[*pq], b); }); }
       for (int with = 0; with < 2; ++with) {
          auto& e = P.X(); auto* n = lex.make_instantiation(e, *s); const Expr* inst = with ? &P.X() : nullptr; if (inst) n->result = inst;
          add_node(with ? "make_instantiation(+instance)" : "make_instantiation", n, Category_code::Instantiation, [n, ep = &e, s, inst](Ck& c) {
